@@ -113,6 +113,9 @@ def reply_text(rng, kind):
         if rng.random() < 0.1:
             a = name_of(rng, [63, 64, 65])
         return "OK " + a + sfx
+    if kind == "OKspace":
+        # "OK" followed by a space but no account before the next space: vouches no account
+        return rng.choice(["OK ", "OK  alice", "OK  ", "OK  alice:123 x"])
     if kind == "NO":
         return "NO " + text_of(rng).strip(" ") if rng.random() < 0.5 else "NO " + text_of(rng)
     if kind == "AGAIN":
@@ -179,10 +182,10 @@ class RandomHistory(object):
     """Drives a proto.Session with weighted random events."""
 
     DEFAULT_W = {"announce": 10, "data": 40, "password": 10, "hurry": 3, "reply": 22, "unlinked": 3, "stray": 6, "timeout": 4,
-                 "disconnect": 4, "registered": 2, "stats": 2, "noise": 1, "reannounce": 3, "dupdata": 3}
+                 "disconnect": 4, "registered": 2, "stats": 2, "noise": 1, "reannounce": 3, "dupdata": 3, "reload": 0}
 
     def __init__(self, rng, session, ids, weights=None, boundary=0.3, reply_kinds=None, ips=None, wellformed_pw=0.8,
-                 max_open=None, negative_ids=False):
+                 max_open=None, negative_ids=False, alt_services=None):
         self.rng = rng
         self.s = session
         self.ids = list(ids)
@@ -196,6 +199,7 @@ class RandomHistory(object):
         self.sent = {}       # id -> set of data items sent
         self.addr_of = {}    # id -> (ip, port): an id is always announced with the same address within one history
         self.max_open = max_open
+        self.alt_services = alt_services or []
         self.answered = []   # (svc, tag) pairs that were answered once already
 
     def announce_ev(self, cid):
@@ -248,6 +252,10 @@ class RandomHistory(object):
             return {"t": "noise", "line": r.choice(["-1 M irc.example.net 20", "-1 E NOTICE :something", "-1 ? config", "-1 M srv"])}
         if cat == "stray":
             return self.stray_ev()
+        if cat == "reload":
+            if not self.alt_services:
+                return None
+            return {"t": "reload", "services": r.choice(self.alt_services)}
         if not openids:
             return None
         cid = r.choice(openids)
